@@ -185,6 +185,9 @@ class HSFZConnection:
             logger.debug(f"read worker received EOF: {e}")
         except Exception as e:
             logger.critical(f"read worker died: {e}")
+        finally:
+            # Nobody feeds the queue any more; make sure that later reads fail instead of waiting forever
+            await self.close()
 
     async def _unpack_frame(self, frame: HSFZDiagFrame | int) -> HSFZDiagFrame:
         # I little hack, but it is either a tuple or an int….
